@@ -2,7 +2,7 @@
    vm_compute: one JSON case in, one JSON observation out *)
 From Coq Require Import List NArith ZArith Bool.
 From D2P Require Import Str Err Json Xml TableTypes Tables Fmt NumFmt Bullets Merge
-     Collector Walk Iter Output Codec Paths Package Content.
+     Collector Walk Iter Output Codec Paths Package Content Lifecycle Save.
 Import ListNotations.
 Open Scope N_scope.
 
@@ -76,6 +76,42 @@ Definition observe_package (a : archive) (o : opts) : jt :=
                Ok (jopt (jlist (fun q => match q with (r, au, d, t) =>
                                            JL [jstr r; jstr au; jstr d; jstr t] end)) c))].
 
+(* ---------- lifecycle, save, replace ---------- *)
+Definition dec_attr (t : jt) : option attr :=
+  match t with
+  | JL [JN 0; ty] => ty' <~ get_str ty ;; Some (APars ty')
+  | JL [JN 1; ty] => ty' <~ get_str ty ;; Some (ARuns ty')
+  | JL [JN 2; ty] => ty' <~ get_str ty ;; Some (APlain ty')
+  | JL [JN 3] => Some ADocPars | JL [JN 4] => Some ADocRuns | JL [JN 5] => Some ADoc
+  | JL [JN 6] => Some AText | JL [JN 7] => Some AHtmlMap | JL [JN 8] => Some AImages
+  | JL [JN 9] => Some ACore | JL [JN 10] => Some AComments
+  | _ => None
+  end.
+Definition dec_op (t : jt) : option op :=
+  match t with
+  | JL [JN 0; a] => a' <~ dec_attr a ;; Some (OpRead a')
+  | JL [JN 1] => Some OpSaveImages
+  | JL [JN 2] => Some OpSave
+  | JL [JN 3] => Some OpClose
+  | JL [JN 4; b] => b' <~ get_bool b ;; Some (OpExit b')
+  | _ => None
+  end.
+Definition enc_outcome (x : outcome) : jt :=
+  match x with
+  | OVal => JL [JN 0]
+  | OErr e => JL [JN 1; jnat (exn_code e)]
+  | ONone => JL [JN 2]
+  end.
+Definition enc_zip (z : zipstate) : jt :=
+  JN (match z with ZNone => 0 | ZOpen => 1 | ZClosed => 2 end).
+
+Definition enc_wmembers (l : list (str * wmember)) : jt :=
+  jlist (fun nm => JL [jstr (fst nm);
+                       match snd nm with
+                       | WCopy i => JL [JN 0; jnat i]
+                       | WXml t => JL [JN 1; enc_anode t]
+                       end]) l.
+
 Definition run_case (c : jt) : jt :=
   match c with
   | JL [JN 1; html; dup; rels; numtbl; root] =>
@@ -95,6 +131,30 @@ Definition run_case (c : jt) : jt :=
   | JL [JN 5; html; dup; arch] =>
       match get_bool html, get_bool dup, dec_archive arch with
       | Some h, Some d, Some a => observe_package a {| o_html := h; o_dup := d |}
+      | _, _, _ => bad_case
+      end
+  | JL [JN 7; html; dup; arch; JL ops] =>
+      match get_bool html, get_bool dup, dec_archive arch, map_opt dec_op ops with
+      | Some h, Some d, Some a, Some xs =>
+          let o := {| o_html := h; o_dup := d |} in
+          match files a with
+          | Ok fs =>
+              let '(st, outs) := run_ops a o fs l_init xs in
+              JL [JN 0; jlist enc_outcome outs; enc_zip (l_zip st); jbool (l_closed st)]
+          | Err e => enc_exn e
+          end
+      | _, _, _, _ => bad_case
+      end
+  | JL [JN 8; html; dup; arch] =>
+      match get_bool html, get_bool dup, dec_archive arch with
+      | Some h, Some d, Some a =>
+          enc_res (l <- save a {| o_html := h; o_dup := d |} ;; Ok (enc_wmembers l))
+      | _, _, _ => bad_case
+      end
+  | JL [JN 9; html; arch; JL pairs] =>
+      match get_bool html, dec_archive arch, map_opt dec_pair_str pairs with
+      | Some h, Some a, Some ps =>
+          enc_res (l <- replace_docx a {| o_html := h; o_dup := true |} ps ;; Ok (enc_wmembers l))
       | _, _, _ => bad_case
       end
   | JL [JN 6; dir; target] =>
